@@ -183,10 +183,12 @@ bool xml10Clean(const Model& m) {
 struct Cfg {
     std::string ser = "factory";          // factory | legacy | pipeline
     unsigned b = 512, t = 1024; std::vector<int64_t> flushes; SinkFault fault;
+    XMLCh after[2] = { 0, 0 };                           // what lies in memory right behind character data handed to the listener
     std::string form = "callback", variant = "copy";     // pipeline only
     Json raw;
     std::string key(bool withFault = true) const {
         std::string k = ser + "|" + std::to_string(b) + "|" + std::to_string(t) + "|"; for (auto f : flushes) k += std::to_string(f) + ",";
+        if (after[0] || after[1]) k += "|after:" + hexCp(after[0]) + "," + hexCp(after[1]);
         if (ser == "pipeline") k += "|" + form + "|" + variant;
         if (withFault && !fault.kind.empty()) k += "|" + fault.kind + "@" + std::to_string(fault.at);
         return k;
@@ -197,6 +199,7 @@ Cfg cfgFromJson(const Json& j) {
     Cfg c; c.raw = j; c.ser = j.str("ser", "factory"); c.b = (unsigned)std::max<int64_t>(1, std::min<int64_t>(j.num("b", 512), 1 << 16)); c.t = (unsigned)std::max<int64_t>(1, std::min<int64_t>(j.num("t", 1024), 1 << 16));
     for (auto& f : j.at("flushes").a) if (f.t == Json::Int && f.i >= 0) c.flushes.push_back(f.i);
     c.fault = SinkFault::fromJson(j.at("fault")); c.form = j.str("form", "callback"); c.variant = j.str("variant", "copy");
+    { const Json& a = j.at("after"); for (size_t i = 0; i < 2 && i < a.a.size(); ++i) if (a.a[i].t == Json::Int) c.after[i] = (XMLCh)(a.a[i].i & 0xFFFF); }
     return c;
 }
 Cfg withoutFault(const Cfg& c) { Cfg r = c; r.fault = SinkFault(); return r; }
@@ -219,8 +222,9 @@ template <class F> void guarded(Out& o, F f) {
     catch (...) { o.threw = true; o.excType = "unknown"; }
 }
 
-// character data goes to the listener in a buffer of exactly `length` units (the interface passes a length, not a terminator)
-struct Exact { std::unique_ptr<XMLCh[]> p; size_t n; explicit Exact(const XS& s) : p(new XMLCh[s.size() ? s.size() : 1]), n(s.size()) { std::copy(s.begin(), s.end(), p.get()); } };
+// character data goes to the listener in a buffer of `length` units (the interface passes a length, not a terminator)
+// and of two more units whose content is the configuration's business: the output must not depend on them
+struct Exact { std::unique_ptr<XMLCh[]> p; size_t n; Exact(const XS& s, const XMLCh* after) : p(new XMLCh[s.size() + 2]), n(s.size()) { std::copy(s.begin(), s.end(), p.get()); p[n] = after[0]; p[n + 1] = after[1]; } };
 
 void feedAll(FormatterListener& fl, Writer& pw, const Model& m, const Cfg& c, Out& o, MemoryManager& mm) {
     std::set<size_t> fl_at; for (auto f : c.flushes) fl_at.insert((size_t)(f % (int64_t)(m.feed.size() + 1)));
@@ -233,9 +237,9 @@ void feedAll(FormatterListener& fl, Writer& pw, const Model& m, const Cfg& c, Ou
         switch (f.k) {
         case F_SE: { AttributeListImpl al(mm); for (auto& a : f.attrs) al.addAttribute(a.name.c_str(), cdataType, a.value.c_str()); fl.startElement(f.name.c_str(), al); break; }
         case F_EE: fl.endElement(f.name.c_str()); break;
-        case F_CH: { Exact x(f.text); fl.characters(x.p.get(), (FormatterListener::size_type)x.n); break; }
-        case F_CD: { Exact x(f.text); fl.cdata(x.p.get(), (FormatterListener::size_type)x.n); break; }
-        case F_IW: { Exact x(f.text); fl.ignorableWhitespace(x.p.get(), (FormatterListener::size_type)x.n); break; }
+        case F_CH: { Exact x(f.text, c.after); fl.characters(x.p.get(), (FormatterListener::size_type)x.n); break; }
+        case F_CD: { Exact x(f.text, c.after); fl.cdata(x.p.get(), (FormatterListener::size_type)x.n); break; }
+        case F_IW: { Exact x(f.text, c.after); fl.ignorableWhitespace(x.p.get(), (FormatterListener::size_type)x.n); break; }
         case F_CM: fl.comment(f.text.c_str()); break;
         case F_PI: fl.processingInstruction(f.target.c_str(), f.text.c_str()); break;
         case F_FL: pw.flush(); break;
@@ -549,7 +553,7 @@ std::string pairNames(const PairMask& pm, bool withConstruct) {
 }
 Script replacePair(const Script& s, const std::vector<bool>& evCdata, int k, int c) {
     Script r = s; EncInfo& enc = encInfo(s.encoding); bool v11 = s.version == "1.1";
-    forEachString(r, evCdata, [&](XS& x, CK kk) { if (kk == k) x = replaceSigClass(x, c, enc, v11); });
+    forEachString(r, evCdata, [&](XS& x, CK kk) { if (kk == k) x = replaceSigClass(x, c, enc, v11, kk == K_NAME); });
     return r;
 }
 
@@ -562,9 +566,12 @@ FindingP probeOn(const Script& s, const Probe& pr) { ++g_evals; Eval ev(s); retu
 Sig sigOf(const Script& s, const Probe& pr, bool wantClasses) {
     Sig r; FindingP f0 = probeOn(s, pr); if (!f0) return r;
     r.any = true; r.cls = f0->cls; r.extra = f0->extra; r.detail = f0->detail; r.ver = s.version; r.reduced = s;
-    if (!wantClasses) return r;
     const std::string base = baseClass(f0->cls);
     auto same = [&](const FindingP& f) { return f && baseClass(f->cls) == base && f->extra == r.extra; };
+    if (!wantClasses) {     // only the version question
+        Script o = s; o.version = s.version == "1.1" ? "1.0" : "1.1"; if (same(probeOn(o, pr))) { r.ver = "1.x"; r.reduced.version = "1.0"; }
+        return r;
+    }
     std::vector<bool> evCdata = buildModel(r.reduced).evCdata;     // replacing characters does not change which text goes through cdata()
     PairMask pm = pairsOf(r.reduced, evCdata); bool changed = false;
     auto reduce = [&]() {      // to a fixpoint: a pair that was needed while others were still present may not be needed afterwards
@@ -713,8 +720,10 @@ struct C04 : public Driver {
         Json cfgs = Json::array();
         auto flushList = [&]() { Json a = Json::array(); int n = gk.chance(1, 2) ? 0 : (int)gk.range(1, 3); for (int i = 0; i < n; ++i) a.push(Json((long long)gk.below(64))); return a; };
         auto cfg = [&](const char* ser, unsigned b, unsigned t) -> Json& { Json o = Json::object(); o["ser"] = ser; o["b"] = b; o["t"] = t; o["flushes"] = flushList(); return cfgs.push(o); };
-        cfg("factory", b0, t0); cfg("factory", gk.pick(bs), gk.pick(ts)); cfg("factory", gk.pick(bs), gk.pick(ts));
-        cfg("legacy", gk.pick(bs), gk.pick(ts)); if (gk.chance(1, 2)) cfg("legacy", gk.pick(bs), gk.pick(ts));
+        auto after = [&](Json& c, int a0, int a1) { Json a = Json::array(); a.push(a0); a.push(a1); c["after"] = a; };
+        static const std::vector<std::pair<int, int>> afters = { { ']', '>' }, { ']', ']' }, { 0xDC00, 'x' }, { '>', '>' }, { 0, 0 }, { '<', '&' } };
+        cfg("factory", b0, t0); { Json& c = cfg("factory", gk.pick(bs), gk.pick(ts)); after(c, ']', '>'); } { Json& c = cfg("factory", gk.pick(bs), gk.pick(ts)); auto a = gk.pick(afters); after(c, a.first, a.second); }
+        { Json& c = cfg("legacy", gk.pick(bs), gk.pick(ts)); if (gk.chance(1, 2)) after(c, ']', '>'); } if (gk.chance(1, 2)) cfg("legacy", gk.pick(bs), gk.pick(ts));
         if (wantPipeline) {
             const char* variant = gk.chance(1, 2) ? "copy" : "construct";
             Json& a = cfg("pipeline", 512, 1024); a["form"] = "callback"; a["variant"] = variant;
@@ -745,10 +754,21 @@ struct C04 : public Driver {
         fclose(f);
     }
 
+    // neutralise what a finding needs (its essential construct/class pairs), so that the next, independent finding of the same script can show
+    static Script neutralise(const Script& cur, const Sig& g) {
+        Script r = cur; std::vector<bool> evCdata = buildModel(cur).evCdata; EncInfo& enc = encInfo(cur.encoding); bool v11 = cur.version == "1.1";
+        PairMask pm = pairsOf(g.reduced, buildModel(g.reduced).evCdata);
+        if (g.reduced.version != cur.version) for (int k = 0; k < K_N; ++k) if (pm.m[k] & ((1u << S_NONASCII) | (1u << S_UNENC))) pm.m[k] |= (1u << S_C1) | (1u << S_NEL) | (1u << S_LSEP);   // classes that only exist under XML 1.1
+        forEachString(r, evCdata, [&](XS& x, CK k) { for (int c = 1; c < S_N; ++c) if (pm.m[k] & (1u << c)) x = replaceSigClass(x, c, enc, v11, k == K_NAME); });
+        return r;
+    }
+    Sig lastSig;
     // returns the family-independent part of the signature ("" if nothing was reported)
     std::string report(Result& res, Trace& tr, const Json& plan, const Script& s, const Probe& pr, const std::vector<Cfg>& involved, const std::string& family, bool wantClasses, const std::set<std::string>* suppress = nullptr) {
+        lastSig = Sig();
         { FindingP f0 = probeOn(s, pr); if (!f0) return ""; if (f0->cls == "runaway-allocation" || f0->cls == "bad-free") wantClasses = false; }   // offsets matter there, not classes
         Sig g = sigOf(s, pr, wantClasses); if (!g.any) return "";
+        lastSig = g;
         if (suppress && suppress->count(g.str())) { res.count("pipeline-finding-already-shown-by-factory-product"); tr.ev("same-as-factory " + g.str()); return ""; }
         std::string sig = g.cls + ":" + family + ":" + g.ver + (wantClasses ? ":" + g.pairs : "") + (g.extra.empty() ? "" : ":" + g.extra);
         tr.ev("violation " + sig);
@@ -810,15 +830,31 @@ struct C04 : public Driver {
             for (size_t i : distinct) {
                 const Cfg c = cfgs[i]; res.count("roundtrips_checked");
                 FindingP f = probeSingle(ev, c);
-                if (f) { std::string k = report(res, tr, plan, s, [c](Eval& e) { return probeSingle(e, c); }, { c }, ev.family(c), true, c.ser == "pipeline" ? &shownByFactory : nullptr); if (c.ser == "factory" && !k.empty()) shownByFactory.insert(k); }
-                else if (!ev.out(c).threw) res.count(ev.repr.ok ? "outcome:roundtrip-ok" : "outcome:roundtrip-ok-unrepresentable-by-model");
+                if (!f) { if (!ev.out(c).threw) res.count(ev.repr.ok ? "outcome:roundtrip-ok" : "outcome:roundtrip-ok-unrepresentable-by-model"); continue; }
+                // one finding may hide another: report, neutralise its cause in a copy of the script, look again
+                Script cur = s;
+                for (int round = 0; round < 4; ++round) {
+                    if (round) { Eval e2(cur); if (!probeSingle(e2, c)) break; res.count("further-findings-looked-at"); }
+                    std::string k = report(res, tr, plan, cur, [c](Eval& e) { return probeSingle(e, c); }, { c }, ev.family(c), true, c.ser == "pipeline" ? &shownByFactory : nullptr);
+                    if (c.ser == "factory" && !k.empty()) shownByFactory.insert(k);
+                    if (!lastSig.any || lastSig.pairs == "any" || lastSig.pairs.empty()) break;
+                    Script nxt = neutralise(cur, lastSig); if (eventsToJson(nxt).dump() == eventsToJson(cur).dump()) break; cur = nxt;
+                }
             }
         }
         // oracle 4
         if (groups.count("factory") && groups.count("legacy")) {
             const Cfg fac = cfgs[groups["factory"][0]], leg = cfgs[groups["legacy"][0]]; res.count("agreement_checked");
-            if (probeAgree(ev, fac, leg)) report(res, tr, plan, s, [fac, leg](Eval& e) { return probeAgree(e, fac, leg); }, { fac, leg }, "legacy", true);
-            else res.count("outcome:serializers-agree");
+            if (!probeAgree(ev, fac, leg)) res.count("outcome:serializers-agree");
+            else {
+                Script cur = s;
+                for (int round = 0; round < 4; ++round) {
+                    if (round) { Eval e2(cur); if (!probeAgree(e2, fac, leg)) break; res.count("further-findings-looked-at"); }
+                    report(res, tr, plan, cur, [fac, leg](Eval& e) { return probeAgree(e, fac, leg); }, { fac, leg }, "legacy", true);
+                    if (!lastSig.any || lastSig.pairs == "any" || lastSig.pairs.empty()) break;
+                    Script nxt = neutralise(cur, lastSig); if (eventsToJson(nxt).dump() == eventsToJson(cur).dump()) break; cur = nxt;
+                }
+            }
         }
         // oracle 5
         for (size_t i : faulted) {
